@@ -1172,7 +1172,7 @@ def mon_window(t):
 READ_OPS = ("get", "get_ref", "map_get", "map_get_ref")
 WRITE_OPS = ("put", "put_w", "put_ttl", "put_w_ttl", "upsert", "delete")
 MICRO_CHECKS = {"C01": ("accounting",), "C05": ("accounting",), "C07": ("accounting",), "C11": ("accounting",),
-                "C02": ("deleted",), "C04": ("deleted",), "C13": ("flag",), "C15": ("hits",)}
+                "C02": ("deleted",), "C04": ("deleted",), "C13": ("flag",), "C15": ("hits",), "C16": ("balances",)}
 
 
 def mon_micro(pid, sched, recs):
@@ -1183,6 +1183,8 @@ def mon_micro(pid, sched, recs):
       deleted     from the moment delete(k) has passed its `delete.marked` point, no read whose lookup happens afterwards finds k
                   while the marked entry is still the stored one
       flag        from the moment shutdown() has raised the flag, every call that begins is refused (writes: error, reads: nothing)
+      balances    at every state, worker windows included, while the flag is down: KeysAdded - KeysDeleted = stored keys and
+                  WeightAdded - WeightRemoved = total (mod 2^64)
       hits        while the flag is down: hits = buffered + AccessAdded + AccessDropped + reads stopped between lookup and record"""
     checks = MICRO_CHECKS.get(pid, ())
     cfg = full_cfg(sched["cfg"])
@@ -1255,6 +1257,10 @@ def mon_micro(pid, sched, recs):
             ids_s = sorted(e[2] for e in snap["store"])
             if snap["used"] != charges or snap["used"] < 0 or ids_w != ids_s:
                 fail("micro-accounting-broken", "between commands: total %d, sum of charges %d, charged ids %s, stored ids %s" % (snap["used"], charges, ids_w, ids_s), i)
+        if "balances" in checks and snap["shut"] == 0 and not flag_up and not r.get("stale_snap"):
+            st = snap["stats"]
+            if (st[2] - st[3]) % U64 != len(snap["store"]) % U64 or (st[6] - st[7]) % U64 != snap["used"] % U64:
+                fail("micro-balance-broken", "KeysAdded %d - KeysDeleted %d vs %d stored keys; WeightAdded %d - WeightRemoved %d vs total %d" % (st[2], st[3], len(snap["store"]), st[6], st[7], snap["used"]), i)
         if "hits" in checks and snap["shut"] == 0 and not flag_up:
             inflight = sum(1 for v in at.values() if v[2] == "read.hit")
             st = snap["stats"]
